@@ -654,5 +654,28 @@ def replay_C18(w, clause):
     return {"reproduced": True, "sig": {"kind": "truncated_batch_accepted"}, "detail": f"first {k} of {len(data)} bytes decode to a batch"}
 
 
+def replay_C16(w, clause):
+    sys.path.insert(0, "/repo") if "/repo" not in sys.path else None
+    from codegen.case import to_snake_case
+
+    if "snake_builtin" in w:
+        n = w["snake_builtin"]
+        return {"reproduced": True, "sig": {"kind": "builtin_suffix"}, "detail": f"to_snake_case({n!r}) = {to_snake_case(n)!r}"}
+    s = w["snake"]
+    try:
+        out = to_snake_case(s)
+    except Exception as e:
+        return {"reproduced": True, "sig": {"kind": "to_snake_case_raises", "exception": type(e).__name__, "length": len(s)},
+                "detail": f"to_snake_case({s!r}) raised {type(e).__name__}: {e}"}
+    exp = ""
+    for i, ch in enumerate(s):
+        if i >= 1 and ch.isupper() and (s[i - 1].islower() or ((s[i - 1].isupper() or s[i - 1].isdigit()) and i + 1 < len(s) and s[i + 1].islower())):
+            exp += "_"
+        exp += ch.lower()
+    if out.rstrip("_") != exp.rstrip("_") and out != exp:
+        return {"reproduced": True, "sig": {"kind": "underscore_positions"}, "detail": f"to_snake_case({s!r}) = {out!r}, convention gives {exp!r}"}
+    return {"reproduced": False, "detail": f"{s!r} -> {out!r}"}
+
+
 if __name__ == "__main__":
     sys.exit(main(sys.argv[1:]))
